@@ -307,12 +307,38 @@ class Thread:
         self.arr_t = []       # arrivals of the thread itself
 
 
+def executor_thread(threads, order):
+    """the executor thread of the probe as a thread under test (k = 0): spawned by the first
+    thread::spawn of the process, its closure never returns, its handle is kept"""
+    t = Thread(0, {"ty": "unit", "fin": "ret", "party": 0})
+    t.spawn_ok = True
+    t.ev = [{"e": "spawn", "ok": True}, {"e": "run"}]
+    threads[0] = t
+    order.insert(0, t)
+    return t
+
+
 def normalise(run):
     """-> (threads: list[Thread] in spawn order, batches: list[dict], info: dict)"""
     evs = run.events
     hello = next((e for e in evs if e["ev"] == "hello"), None)
     if hello is None:
-        raise core.ToolError("probe run %s has no hello event" % run.name)
+        boot = next((e for e in evs if e["ev"] == "boot"), None)
+        if boot is None:
+            # the script interpreter never got to its first spawn call: the probe itself is broken
+            raise core.ToolError("probe run %s wrote no boot event (rc=%s): the probe did not reach the code under test" % (run.name, run.rc))
+        # The process died (or hung) inside / right after the first thread::spawn it made - the one
+        # that creates the executor thread, a closure that returns () and whose handle is kept.
+        # That is an execution of the code under test: a thread whose closure never got to run.
+        t = Thread(0, {"ty": "unit", "fin": "ret", "party": 0})
+        t.op = None
+        t.ev = [{"e": "crash"} if not run.killed else {"e": "timeout", "op": "spawn"},
+                {"e": "end", "kept": True, "sys": False, "dv": False, "quiet": False}]
+        t.raw = list(evs)
+        info = {"main": boot["main"], "h": 0, "diverged": False, "steps": [], "stray": 0, "abort": False,
+                "timeout": None, "unattributed_badfree": 0, "debug": None, "crash": True, "early_crash": True,
+                "blocks_live": {}, "logalloc": True}
+        return [t], [], info
     main_tid, h_tid = hello["main"], hello["h"]
     threads = {}
     order = []
@@ -355,7 +381,9 @@ def normalise(run):
                 t.spawn_ok = e["ok"]
                 emit(t, {"e": "spawn", "ok": e["ok"]}, e)
                 for (p, sz) in t.pending:
+                    # allocated inside spawn, still live when spawn returned, no role announced
                     blocks[p] = (t.k, "other")
+                    emit(t, {"e": "acq", "r": "other"})
                 t.pending = []
             cur_spawn = None
         elif ev == "alloc":
@@ -543,13 +571,16 @@ def normalise(run):
         info["crash"] = True
         t = threads.get(h_cur) if h_cur is not None else (cur_spawn or (order[-1] if order else None))
         if t is None:
-            raise core.ToolError("probe run %s died before any thread was spawned (rc=%s)" % (run.name, run.rc))
+            # No scenario thread yet, but the process got past `boot`/`hello`: it died while the
+            # executor thread - itself created by the thread::spawn under test (closure returns (),
+            # handle kept) - was running the script.  The crash belongs to that thread's life.
+            t = executor_thread(threads, order)
         emit(t, {"e": "crash"})
     if run.killed and info["timeout"] is None:
         # the probe process itself had to be killed: a hang beyond its own watchdog
         t = threads.get(h_cur) if h_cur is not None else (cur_spawn or (order[-1] if order else None))
         if t is None:
-            raise core.ToolError("probe run %s hung before any thread was spawned" % run.name)
+            t = executor_thread(threads, order)
         t.timeout = True
         emit(t, {"e": "timeout", "op": t.op or ("spawn" if t.spawn_ok is None else "keep")})
     info["blocks_live"] = dict(blocks)
